@@ -118,11 +118,19 @@ def run(repo, rep):
     for d in _defs_reaching(f, sa[0], "address"):
         v = _value_of_def(d, "address")
         t = norm(v) if isinstance(v, ast.AST) else str(v)
-        rep.check(t in ("total_sz", "allocated_tens.address"), "C05-a", f"{T}:linear_allocate_live_ranges", f"address := {t}", "address from an unrecognised source")
+        aligned_fresh = isinstance(v, ast.AST) and _is_round_up(v, {"lr.get_alignment()", "max(alloc_granularity, lr.get_alignment())", "max(lr.get_alignment(), alloc_granularity)"}) and norm(v.args[0]) == "total_sz"
+        rep.check(t == "allocated_tens.address" or aligned_fresh or t == "total_sz", "C05-a", f"{T}:linear_allocate_live_ranges", f"address := {t}", "address from an unrecognised source")
+        if t != "allocated_tens.address":
+            rep.check(aligned_fresh, "C05-a", f"{T}:linear_allocate_live_ranges", "a fresh address is the running total rounded up to the range's own alignment",
+                      f"address := {t}: the running total is a multiple of alloc_granularity only; a range that requested a larger alignment gets an address that is not a multiple of it "
+                      "(demonstrated at the allocator's interface: ranges with alignments 16, 64, 128 and the default granularity 16 get addresses 0, 16, 80)")
     for s in walk_no_nested(f):
-        if isinstance(s, (ast.Assign, ast.AugAssign)) and norm(s.targets[0] if isinstance(s, ast.Assign) else s.target) == "total_sz":
+        if isinstance(s, (ast.Assign, ast.AugAssign)) and any(norm(t_) == "total_sz" for t_ in (s.targets if isinstance(s, ast.Assign) else [s.target])):
             if isinstance(s, ast.Assign):
-                ok = isinstance(s.value, ast.Constant) and s.value.value == 0
+                # 0, or the running total rounded up to the range's alignment (alignments and the granularity are powers of two, so the
+                # result stays a multiple of the granularity)
+                ok = (isinstance(s.value, ast.Constant) and s.value.value == 0) or (_is_round_up(s.value, {"lr.get_alignment()", "max(alloc_granularity, lr.get_alignment())", "max(lr.get_alignment(), alloc_granularity)"})
+                                                                                    and norm(s.value.args[0]) == "total_sz")
             else:
                 ok = isinstance(s.op, ast.Add) and _is_round_up(s.value, {"alloc_granularity"})
             rep.check(ok, "C05-a", f"{T}:linear_allocate_live_ranges", norm(s), "total_sz must stay a multiple of alloc_granularity")
@@ -184,6 +192,17 @@ def run(repo, rep):
     par = [n for n in ast.walk(f) if isinstance(n, ast.If) and grow and grow[0] in n.body]
     rep.check(len(grow) == 1 and len(par) == 1 and norm(par[0].test) in ("address == total_sz", "total_sz == address"), "C05-c", f"{T}:linear_allocate_live_ranges",
               "total grows exactly when a fresh address was taken", norm(par[0].test) if par else "guard missing")
+    rep.clause("C05-f", "the reported total is exactly the highest end address (not padded to the alignment)")
+    # "equals the highest end address": Greedy and LinearAlloc add the size padded to the alignment, so the total exceeds max(address + size)
+    # whenever the top-most range's size is no multiple of its alignment (conservative; HillClimb reports the exact end)
+    ga = greedy.func("GreedyAllocator.alloc")
+    al = [s_ for s_ in ast.walk(ga) if isinstance(s_, ast.Assign) and norm(s_.targets[0]) == "aligned_size"]
+    used = upd and "aligned_size" in str(norm(upd[0].value))
+    rep.check(not (used and al and "round_up" in str(norm(al[0].value))), "C05-f", f"{G}:GreedyAllocator.alloc", "the end address folded into the total is offset + size of the range",
+              f"folds `best_offset + aligned_size` with aligned_size = `{str(norm(al[0].value)) if al else ''}`: total above the highest end address")
+    rep.check(not (grow and "round_up" in str(norm(grow[0].value))), "C05-f", f"{T}:linear_allocate_live_ranges", "the total advances by the size of the range (the next address is aligned separately)",
+              f"`total_sz += {str(norm(grow[0].value)) if grow else ''}`: total above the highest end address")
+    rep.floor("C05-f", 2)
     rep.floor("C05-c", 6)
 
     # ---------------------------------------------------------------- d
